@@ -6,6 +6,7 @@ mod c08;
 mod c19;
 mod c20;
 mod util;
+mod voc;
 mod voices;
 
 fn main() {
@@ -39,6 +40,12 @@ fn main() {
     match prop {
         "C02" => c02::gen(seed, thorough),
         "C05" => c05::gen_c05(seed, thorough),
+        "VOC0" => voc::gen_raw(seed, thorough, false),
+        "VOC1" => voc::gen_raw(seed, thorough, true),
+        "C06" => voc::gen_c06(seed, thorough),
+        "C07" => voc::gen_c07(seed, thorough),
+        "C13" => voc::gen_c13(seed, thorough),
+        "C14" => voc::gen_c14(seed, thorough),
         "C08" => c08::gen_c08(seed, thorough),
         "C09" => c08::gen_c09(seed, thorough),
         "C10" => c19::gen_c10(seed, thorough),
